@@ -75,7 +75,9 @@ def draw_cfg(st):
     cfg["w_ops"] = w_ops
     # re-entry of context()/run() of open actions; exception extractors registered before and during the run
     cfg["w_reenter"] = st.choose(3, "reenter")
-    cfg["w_xreg"] = st.choose(2, "xreg")
+    # (not with real threads: the model reads the registry when it predicts a message, the registration
+    # of another thread could fall between that and eliot's own lookup)
+    cfg["w_xreg"] = st.choose(2, "xreg") if world != "threads" else 0
     cfg["xreg_fields_only"] = True        # fault-free configuration: no raising extractors
     cfg["extractable"] = ["ValueError", "AppError", "AppSubError", "OSError", "KeyError", "Exception", "AppBase"]
     ex = []
